@@ -65,7 +65,8 @@ fn xitem(max_len: usize) -> impl Strategy<Value = XItem> {
                 // <v> cannot carry xml:space: keep strings whose white space is not at an edge of a run
                 it.cuts.clear();
                 it.phonetic = None;
-                if needs {
+                // (the empty string needs no white-space handling: <v></v> is a formula that yields "")
+                if needs && !it.text.is_empty() {
                     it.form = 0;
                 }
             }
